@@ -2,7 +2,7 @@
 // mds_column_mult, mds_mult, rs_mult, h), the key schedule, g_func and the two block functions.
 // Decomposition: callers are proved against the contracts of their callees (spec-function stubs, `uses=`); in the
 // block-function obligations g_func and the reference's g are both replaced by ONE uninterpreted function of x
-// (licensed by c_g_func: for a fixed keyed value they are the same function), so those obligations are the pure
+// (licensed by c_g_func_128/192/256: for a fixed keyed value they are the same function), so those obligations are the pure
 // ARX / Feistel composition and hold for every well-formed keyed value.
 //
 // Well-formedness of the private state: start in {0, 1, 2} (= 4 - k); established by key_schedule (c_key_schedule).
@@ -76,11 +76,25 @@ pub fn spec_h(x: u32, m: &[u8], k: usize, offset: usize) -> u32 {
 pub fn spec_g_func(t: &Twofish, x: u32) -> u32 { r::g(&keyed_of(t), x) }
 
 // ------------------------------------------------------------------ helpers
-// gf_mult(a, b, p) is the product in GF(2)[x] / (x^8 + p(x)) for EVERY a, b and low polynomial byte p.
+// gf_mult(a, b, p) is the product in GF(2)[x] / (x^8 + p(x)), for every a, b and the two polynomials of the call sites
+// (MDS_POLY: v(x) = x^8+x^6+x^5+x^3+1, RS_POLY: w(x) = x^8+x^6+x^3+x^2+1); the constants themselves are checked too.
 // @ob name=c_gf_mult props=C08,C20 fn=twofish::gf_mult timeout=300
 #[kani::proof]
 #[kani::unwind(10)]
 fn c_gf_mult() {
+    let (a, b, p): (u8, u8, u8) = (kani::any(), kani::any(), kani::any());
+    assert!(0x100 | MDS_POLY as u16 == r::MDS_POLY && 0x100 | RS_POLY as u16 == r::RS_POLY);
+    kani::assume(p == MDS_POLY || p == RS_POLY);
+    kani::cover!(p == MDS_POLY);
+    kani::cover!(p == RS_POLY);
+    assert!(gf_mult(a, b, p) == r::gf_mul(a, b, 0x100 | p as u16));
+}
+// the same for EVERY low polynomial byte p (2^24 cases, nonlinear in p: slow on every SAT solver)
+// @ob name=c_gf_mult_any_poly props=C08 tier=thorough solver=kissat fn=twofish::gf_mult timeout=3600
+#[kani::proof]
+#[kani::solver(kissat)]
+#[kani::unwind(10)]
+fn c_gf_mult_any_poly() {
     let (a, b, p): (u8, u8, u8) = (kani::any(), kani::any(), kani::any());
     assert!(gf_mult(a, b, p) == r::gf_mul(a, b, 0x100 | p as u16));
 }
@@ -145,20 +159,27 @@ fn c_h() {
     assert!(h(x, &key[..8 * k], k, offset) == spec_h(x, &key[..8 * k], k, offset));
 }
 
-// g_func on every well-formed state: the key-dependent S-boxes followed by the MDS matrix == h(X, S)
-// @ob name=c_g_func props=C08,C20 fn=twofish::Twofish::g_func uses=c_sbox,c_mds_column_mult timeout=600
-#[kani::proof]
-#[kani::stub(sbox, spec_sbox)]
-#[kani::stub(mds_column_mult, spec_mds_column_mult)]
-#[kani::unwind(10)]
-fn c_g_func() {
-    let t = any_twofish();
-    let x: u32 = kani::any();
-    kani::cover!(t.start == 0);
-    kani::cover!(t.start == 1);
-    kani::cover!(t.start == 2);
-    assert!(t.g_func(x) == spec_g_func(&t, x));
+// g_func on every well-formed state (one obligation per value of start = 4 - k): the key-dependent S-boxes followed by
+// the MDS matrix == h(X, S)
+macro_rules! g_func_ob {
+    ($name:ident, $start:expr) => {
+        #[kani::proof]
+        #[kani::stub(sbox, spec_sbox)]
+        #[kani::stub(mds_column_mult, spec_mds_column_mult)]
+        #[kani::unwind(10)]
+        fn $name() {
+            let t = Twofish { s: kani::any(), k: kani::any(), start: $start };
+            let x: u32 = kani::any();
+            assert!(t.g_func(x) == spec_g_func(&t, x));
+        }
+    };
 }
+// @ob name=c_g_func_256 props=C08,C20 fn=twofish::Twofish::g_func uses=c_sbox,c_mds_column_mult timeout=600
+g_func_ob!(c_g_func_256, 0);
+// @ob name=c_g_func_192 props=C08,C20 fn=twofish::Twofish::g_func uses=c_sbox,c_mds_column_mult timeout=600
+g_func_ob!(c_g_func_192, 1);
+// @ob name=c_g_func_128 props=C08,C20 fn=twofish::Twofish::g_func uses=c_sbox,c_mds_column_mult timeout=600
+g_func_ob!(c_g_func_128, 2);
 
 // key_schedule for the three key sizes, from ANY prior state: the 40 key words, the S vector, start = 4 - k
 macro_rules! key_schedule_ob {
@@ -191,63 +212,93 @@ key_schedule_ob!(c_key_schedule_192, 3);
 key_schedule_ob!(c_key_schedule_256, 4);
 
 // ------------------------------------------------------------------ block functions
-/// Uninterpreted function u32 -> u32 standing for g under the (fixed) keyed value of the harness.
+/// Over-approximation of "g_func / the reference's g under the (fixed) keyed value of the harness is SOME function
+/// of x": the first 32 calls (one block operation) return unconstrained values and are recorded; each of the next 32
+/// calls (the second block operation) consults exactly ONE recorded call, chosen by a concrete schedule, and returns
+/// its result when the arguments are equal, an unconstrained value otherwise.  Every behaviour of a real function is
+/// included (a function returns equal results on equal arguments), so what is proved with it holds for the real g.
+/// Licensed by c_g_func_128/192/256 (g_func == the reference's g, a pure function of (S, k, x)).
 pub mod ufg {
-    pub const MAXC: usize = 72;
-    pub static mut IN: [u32; MAXC] = [0; MAXC];
-    pub static mut OUT: [u32; MAXC] = [0; MAXC];
-    pub static mut N: usize = 0;
+    pub static mut IN: [u32; 32] = [0; 32];
+    pub static mut OUT: [u32; 32] = [0; 32];
+    pub static mut CALLS: usize = 0;
+    /// schedule: which recorded call the c-th call of the second block operation consults
+    pub static mut SCHEDULE: [usize; 32] = [0; 32];
     #[allow(static_mut_refs)]
-    pub fn uf32(x: u32) -> u32 {
+    pub fn g(x: u32) -> u32 {
         unsafe {
+            let c = CALLS;
+            CALLS += 1;
+            assert!(c < 64);
             let mut y: u32 = kani::any();
-            let mut found = false;
-            let mut i = 0;
-            while i < N {
-                if !found && IN[i] == x { y = OUT[i]; found = true; }
-                i += 1;
+            if c < 32 {
+                IN[c] = x;
+                OUT[c] = y;
+            } else {
+                let j = SCHEDULE[c - 32];
+                if IN[j] == x { y = OUT[j]; }
             }
-            assert!(N < MAXC);
-            IN[N] = x;
-            OUT[N] = y;
-            N += 1;
             y
         }
     }
+    /// reference vs real: the reference evaluates g(R0) then g(ROL(R1, 8)), the real code the other way round
+    #[allow(static_mut_refs)]
+    pub fn schedule_swap_pairs() {
+        unsafe {
+            let mut c = 0;
+            while c < 32 { SCHEDULE[c] = c ^ 1; c += 1; }
+        }
+    }
+    /// decrypt after encrypt (or encrypt after decrypt): double-rounds in reverse order, inside a double-round the
+    /// second half first
+    #[allow(static_mut_refs)]
+    pub fn schedule_inverse() {
+        unsafe {
+            let mut c = 0;
+            while c < 32 {
+                let (r, pos) = (c / 4, c % 4);
+                SCHEDULE[c] = 4 * (7 - r) + [2, 3, 0, 1][pos];
+                c += 1;
+            }
+        }
+    }
 }
-fn uf_g_real(_t: &Twofish, x: u32) -> u32 { ufg::uf32(x) }
-fn uf_g_ref(_kd: &r::Keyed, x: u32) -> u32 { ufg::uf32(x) }
+fn uf_g_real(_t: &Twofish, x: u32) -> u32 { ufg::g(x) }
+fn uf_g_ref(_kd: &r::Keyed, x: u32) -> u32 { ufg::g(x) }
 
-// @ob name=c_encrypt_block props=C08,C20 fn=twofish::Twofish::encrypt_block uses=c_g_func timeout=900
+// @ob name=c_encrypt_block props=C08,C20 fn=twofish::Twofish::encrypt_block uses=c_g_func_128,c_g_func_192,c_g_func_256 timeout=600
 #[kani::proof]
 #[kani::stub(Twofish::g_func, uf_g_real)]
 #[kani::stub(bcref::twofish::g, uf_g_ref)]
-#[kani::unwind(73)]
+#[kani::unwind(41)]
 fn c_encrypt_block() {
+    ufg::schedule_swap_pairs();
     let t = any_twofish();
     let b: [u8; 16] = kani::any();
     let mut blk = Array(b);
     cipher::BlockCipherEncrypt::encrypt_block(&t, &mut blk);
     assert!(blk.0 == r::encrypt_with(&keyed_of(&t), &b));
 }
-// @ob name=c_decrypt_block props=C08,C20 fn=twofish::Twofish::decrypt_block uses=c_g_func timeout=900
+// @ob name=c_decrypt_block props=C08,C20 fn=twofish::Twofish::decrypt_block uses=c_g_func_128,c_g_func_192,c_g_func_256 timeout=600
 #[kani::proof]
 #[kani::stub(Twofish::g_func, uf_g_real)]
 #[kani::stub(bcref::twofish::g, uf_g_ref)]
-#[kani::unwind(73)]
+#[kani::unwind(41)]
 fn c_decrypt_block() {
+    ufg::schedule_swap_pairs();
     let t = any_twofish();
     let b: [u8; 16] = kani::any();
     let mut blk = Array(b);
     cipher::BlockCipherDecrypt::decrypt_block(&t, &mut blk);
     assert!(blk.0 == r::decrypt_with(&keyed_of(&t), &b));
 }
-// C01: a Feistel network is invertible whatever g is
-// @ob name=l_roundtrip props=C01 kind=lemma fn=twofish::Twofish::encrypt_block,twofish::Twofish::decrypt_block uses=c_g_func timeout=900
+// C01: a Feistel network is invertible whatever g is, for every well-formed keyed value, both orders
+// @ob name=l_roundtrip props=C01 kind=lemma fn=twofish::Twofish::encrypt_block,twofish::Twofish::decrypt_block uses=c_g_func_128,c_g_func_192,c_g_func_256 timeout=600
 #[kani::proof]
 #[kani::stub(Twofish::g_func, uf_g_real)]
-#[kani::unwind(73)]
+#[kani::unwind(41)]
 fn l_roundtrip() {
+    ufg::schedule_inverse();
     let t = any_twofish();
     let b: [u8; 16] = kani::any();
     let mut blk = Array(b);
@@ -255,11 +306,12 @@ fn l_roundtrip() {
     cipher::BlockCipherDecrypt::decrypt_block(&t, &mut blk);
     assert!(blk.0 == b);
 }
-// @ob name=l_roundtrip_rev props=C01 kind=lemma fn=twofish::Twofish::encrypt_block,twofish::Twofish::decrypt_block uses=c_g_func timeout=900
+// @ob name=l_roundtrip_rev props=C01 kind=lemma fn=twofish::Twofish::encrypt_block,twofish::Twofish::decrypt_block uses=c_g_func_128,c_g_func_192,c_g_func_256 timeout=600
 #[kani::proof]
 #[kani::stub(Twofish::g_func, uf_g_real)]
-#[kani::unwind(73)]
+#[kani::unwind(41)]
 fn l_roundtrip_rev() {
+    ufg::schedule_inverse();
     let t = any_twofish();
     let b: [u8; 16] = kani::any();
     let mut blk = Array(b);
@@ -329,12 +381,12 @@ macro_rules! api_ob {
         }
     };
 }
-// @ob name=c_api_enc_128 props=C08,C20 fn=twofish::Twofish::new_from_slice,twofish::Twofish::encrypt_block uses=c_key_schedule_128,c_g_func timeout=900
-// @ob name=c_api_dec_128 props=C08,C20 fn=twofish::Twofish::new_from_slice,twofish::Twofish::decrypt_block uses=c_key_schedule_128,c_g_func timeout=900
+// @ob name=c_api_enc_128 props=C08,C20 fn=twofish::Twofish::new_from_slice,twofish::Twofish::encrypt_block uses=c_key_schedule_128,c_g_func_128,c_g_func_192,c_g_func_256 timeout=900
+// @ob name=c_api_dec_128 props=C08,C20 fn=twofish::Twofish::new_from_slice,twofish::Twofish::decrypt_block uses=c_key_schedule_128,c_g_func_128,c_g_func_192,c_g_func_256 timeout=900
 api_ob!(c_api_enc_128, c_api_dec_128, 2);
-// @ob name=c_api_enc_192 props=C08,C20 fn=twofish::Twofish::new_from_slice,twofish::Twofish::encrypt_block uses=c_key_schedule_192,c_g_func timeout=900
-// @ob name=c_api_dec_192 props=C08,C20 fn=twofish::Twofish::new_from_slice,twofish::Twofish::decrypt_block uses=c_key_schedule_192,c_g_func timeout=900
+// @ob name=c_api_enc_192 props=C08,C20 fn=twofish::Twofish::new_from_slice,twofish::Twofish::encrypt_block uses=c_key_schedule_192,c_g_func_128,c_g_func_192,c_g_func_256 timeout=900
+// @ob name=c_api_dec_192 props=C08,C20 fn=twofish::Twofish::new_from_slice,twofish::Twofish::decrypt_block uses=c_key_schedule_192,c_g_func_128,c_g_func_192,c_g_func_256 timeout=900
 api_ob!(c_api_enc_192, c_api_dec_192, 3);
-// @ob name=c_api_enc_256 props=C08,C20 fn=twofish::Twofish::new_from_slice,twofish::Twofish::encrypt_block uses=c_key_schedule_256,c_g_func timeout=900
-// @ob name=c_api_dec_256 props=C08,C20 fn=twofish::Twofish::new_from_slice,twofish::Twofish::decrypt_block uses=c_key_schedule_256,c_g_func timeout=900
+// @ob name=c_api_enc_256 props=C08,C20 fn=twofish::Twofish::new_from_slice,twofish::Twofish::encrypt_block uses=c_key_schedule_256,c_g_func_128,c_g_func_192,c_g_func_256 timeout=900
+// @ob name=c_api_dec_256 props=C08,C20 fn=twofish::Twofish::new_from_slice,twofish::Twofish::decrypt_block uses=c_key_schedule_256,c_g_func_128,c_g_func_192,c_g_func_256 timeout=900
 api_ob!(c_api_enc_256, c_api_dec_256, 4);
